@@ -506,4 +506,90 @@ theorem store_completes (exp : Expected) (s : Sys) (w : Nat)
       unfold markerOK; rw [find_putObj_eq]; decide
     · simp only [setPc]; exact getElem?_set_eq _ _ _ hwl2
 
+
+/-! ### A complete entry loads as a hit with exactly the pinned module files -/
+
+theorem stripFiles_prefix (x : Str) : stripFiles (filesPrefix ++ x) = some x := by
+  unfold stripFiles
+  have : filesPrefix.isPrefixOf (filesPrefix ++ x) = true :=
+    List.isPrefixOf_iff_prefix.mpr (List.prefix_append _ _)
+  simp [this]
+
+/-- Side files do not live under files/. -/
+def SidesOutsideFiles (exp : Expected) : Prop := ∀ s ∈ exp.sides, stripFiles s.1 = none
+
+theorem subsetOf_iff (a b : List (Str × Content)) : subsetOf a b = true ↔ ∀ x ∈ a, x ∈ b := by
+  unfold subsetOf
+  simp [List.all_eq_true, List.contains_iff_mem]
+
+theorem complete_loads_hit (exp : Expected) (hside : SidesOutsideFiles exp) (entry : Mem)
+    (hc : Complete exp entry) (hm : entry.find markerPath = some markerCanonical)
+    (hk : OnlyPayloadKeys exp entry) (hn : NodupKeys entry) :
+    load exp entry = .hit (moduleFilesOf entry) ∧
+      sameSet (moduleFilesOf entry) (exp.files.filter fun f => isModuleFile f.1) = true := by
+  have hsides : (exp.sides.all fun s => (entry.find s.1).isSome) = true := by
+    rw [List.all_eq_true]
+    intro s hs
+    have : s ∈ exp.payload := List.mem_append.mpr (Or.inr hs)
+    rw [hc s this]; rfl
+  have hsame : sameSet (moduleFilesOf entry) (exp.files.filter fun f => isModuleFile f.1) = true := by
+    unfold sameSet
+    rw [Bool.and_eq_true, subsetOf_iff, subsetOf_iff]
+    constructor
+    · intro x hx
+      unfold moduleFilesOf at hx
+      obtain ⟨kv, hkv, hfx⟩ := List.mem_filterMap.mp hx
+      cases hst : stripFiles kv.1 with
+      | none => rw [hst] at hfx; cases hfx
+      | some rel =>
+        rw [hst] at hfx
+        simp only at hfx
+        split at hfx
+        · rename_i hmod
+          injection hfx with hfx
+          rcases hk kv hkv with hmk | hpay
+          · exfalso
+            have hnone : stripFiles markerPath = none := by decide
+            rw [hmk, hnone] at hst; cases hst
+          · obtain ⟨pc, hpc, hpe⟩ := List.mem_map.mp hpay
+            rcases List.mem_append.mp hpc with hf | hs
+            · obtain ⟨f0, hf0, hfe⟩ := List.mem_map.mp hf
+              have hp : kv.1 = filesPrefix ++ f0.1 := by rw [← hpe, ← hfe]
+              have hrel : rel = f0.1 := by
+                rw [hp, stripFiles_prefix] at hst; exact (Option.some.inj hst).symm
+              have hfind := hc pc hpc
+              rw [← hfe] at hfind
+              simp only at hfind
+              have hkvfind : entry.find kv.1 = some kv.2 := (mem_iff_find hn kv.1 kv.2).mp hkv
+              rw [hp, hfind] at hkvfind
+              have hc2 : f0.2 = kv.2 := Option.some.inj hkvfind
+              rw [← hfx, hrel, ← hc2]
+              apply List.mem_filter.mpr
+              refine ⟨hf0, ?_⟩
+              rw [← hrel]; exact hmod
+            · exfalso
+              have := hside pc hs
+              rw [hpe, hst] at this; cases this
+        · cases hfx
+    · intro f hf
+      obtain ⟨hfm, hmod⟩ := List.mem_filter.mp hf
+      have hpay : (filesPrefix ++ f.1, f.2) ∈ exp.payload :=
+        List.mem_append.mpr (Or.inl (List.mem_map.mpr ⟨f, hfm, rfl⟩))
+      have hfind := hc _ hpay
+      simp only at hfind
+      have hmem := find_some_mem hfind
+      unfold moduleFilesOf
+      apply List.mem_filterMap.mpr
+      refine ⟨(filesPrefix ++ f.1, f.2), hmem, ?_⟩
+      dsimp only
+      rw [stripFiles_prefix]
+      dsimp only
+      rw [if_pos hmod]
+  refine ⟨?_, hsame⟩
+  unfold load
+  rw [hm]
+  simp only
+  have hv : markerValid markerCanonical = true := by decide
+  simp only [hv, Bool.not_true, Bool.false_eq_true, if_false, hsides, hsame, Bool.true_and, decide_true, if_true]
+
 end BufModel.Cache
